@@ -55,6 +55,8 @@ def ty_coq(t):
         return "(arr2 F)"
     if t == "arr2u16":
         return "(arr2 Z)"
+    if t == "mask2":
+        return "(arr2 bool)"
     if t == "nd":
         return "(nd F)"
     if t == "LAM":
@@ -83,7 +85,7 @@ def ann_type(node, overrides, key):
         raise Unsupported("missing annotation for %s" % (key,))
     s = ast.unparse(node)
     table = {
-        "int": "int", "List[int]": ("list", "int"), "IndexList": ("list", "int"),
+        "int": "int", "bool": "bool", "List[int]": ("list", "int"), "IndexList": ("list", "int"),
         "List[Tuple[int, int]]": ("list", ("tuple", ["int", "int"])),
         "ArrayPositionList": ("list", ("tuple", ["int", "int"])),
         "Tuple[IndexList, IndexList]": ("tuple", [("list", "int"), ("list", "int")]),
@@ -177,6 +179,10 @@ class Fn:
                 b, c, t = self.expr(e.operand, env)
                 if t == "int":
                     return b, "(- %s)" % c, "int"
+                if t == "F":
+                    # -x is rendered as 0 - x (differs from the exact negation only in the sign of a zero, which no
+                    # comparison observes)
+                    return b, "(fsub (of_int (0)) %s)" % c, "F"
             if isinstance(e.op, ast.Not):
                 b, c, t = self.expr(e.operand, env)
                 if t == "bool":
@@ -190,6 +196,8 @@ class Fn:
             b1, c1, t1 = self.expr(e.left, env)
             b2, c2, t2 = self.expr(e.comparators[0], env)
             op = type(e.ops[0])
+            if t1 == "arr2" and t2 == "F" and op in (ast.Lt, ast.Gt):
+                return b1 + b2, ("(arr2_map (fun a_ => fltb %s %s) %s)" % (("a_", c2, c1) if op is ast.Lt else (c2, "a_", c1))), "mask2"
             if t1 == ("list", "F") and t2 in ("F", "int") and op is ast.Lt:
                 c2f = c2 if t2 == "F" else "(of_int %s)" % c2
                 return b1 + b2, "(map (fun a_ => fltb a_ %s) %s)" % (c2f, c1), ("list", "bool")
@@ -235,6 +243,9 @@ class Fn:
         b2, c2, t2 = self.expr(e.right, env)
         b = b1 + b2
         op = type(e.op)
+        if op is ast.BitAnd and (t1, t2) == ("mask2", "mask2"):
+            v = self.fresh()
+            return b + [(v, "np_mask_and %s %s" % (c1, c2))], v, "mask2"
         VEC = ("list", "F")
         if "np_matmul" in self.externs and "MAT" in (t1, t2):
             # dense matrices are opaque: their arithmetic is a named BLAS / NumPy oracle
@@ -411,10 +422,19 @@ class Fn:
             if t == "F":
                 return b, "(math_sqrt %s)" % c, "F"
         if fn in self.sigs:
+            names = self.sigs[fn][2] if len(self.sigs[fn]) > 2 else None
+            argn = list(e.args)
             if e.keywords:
-                raise Unsupported("keyword arguments in call of %s" % fn)
-            args = [self.expr(a, env) for a in e.args]
-            at, rt = self.sigs[fn]
+                # keyword arguments are matched with the callee's parameter names
+                if names is None or any(k.arg is None for k in e.keywords):
+                    raise Unsupported("keyword arguments in call of %s" % fn)
+                rest = names[len(argn):]
+                kw = {k.arg: k.value for k in e.keywords}
+                if sorted(kw) != sorted(rest):
+                    raise Unsupported("keyword arguments %s of %s do not complete its parameters %s" % (sorted(kw), fn, rest))
+                argn += [kw[n] for n in rest]
+            args = [self.expr(a, env) for a in argn]
+            at, rt = self.sigs[fn][0], self.sigs[fn][1]
             if [a[2] for a in args] != list(at):
                 raise Unsupported("argument types in call of %s: %s vs %s" % (fn, [a[2] for a in args], at))
             v = self.fresh()
@@ -498,6 +518,10 @@ class Fn:
             if t == "int":
                 v = self.fresh()
                 return b + [(v, "np_full1 f0 %s" % c)], v, ("list", "F")
+        if fn == "np.copy" and len(e.args) == 1 and not e.keywords:
+            b, c, t = self.expr(e.args[0], env)
+            if t in ("arr2", ("list", "F")):
+                return b, c, t          # a copy of an immutable value is the value (aliasing is C19's subject, not rendered)
         if fn == "list" and len(e.args) == 1 and not e.keywords and not isinstance(e.args[0], ast.Call):
             b, c, t = self.expr(e.args[0], env)
             if isinstance(t, tuple) and t[0] == "list":
@@ -735,6 +759,16 @@ class Fn:
             if isinstance(tgt, ast.Subscript) and isinstance(tgt.value, ast.Name) and tgt.value.id in env:
                 a = tgt.value.id
                 ta = env[a]
+                if ta == "arr2" and not isinstance(tgt.slice, (ast.Tuple, ast.Slice)):
+                    bi, ci, ti = self.expr(tgt.slice, env)
+                    if ti == "mask2":
+                        # a[mask] = scalar
+                        bv, cv, tv = self.expr(s.value, env)
+                        if tv == "int":
+                            cv, tv = "(of_int %s)" % cv, "F"
+                        if tv != "F":
+                            raise Unsupported("masked store of a %s" % (tv,))
+                        return self.wrap(bi + bv, "%s <- np_mask_set %s %s %s ;;\n  %s" % (cname(a), cname(a), ci, cv, nxt(env)))
                 if ta in ("arr2", "arr2u16") and isinstance(tgt.slice, ast.Tuple) and len(tgt.slice.elts) == 2 \
                         and not any(isinstance(x, ast.Slice) for x in tgt.slice.elts):
                     # a[i, j] = v   (uint16 arrays wrap the stored integer modulo 2^16)
@@ -963,8 +997,11 @@ class Fn:
     def translate(self):
         f = self.node
         a = f.args
-        if a.vararg or a.kwarg or a.kwonlyargs or a.posonlyargs or a.defaults or a.kw_defaults:
+        if a.vararg or a.kwarg or a.kwonlyargs or a.posonlyargs or a.kw_defaults:
             raise Unsupported("argument form")
+        if a.defaults and not all(isinstance(d, ast.Constant) for d in a.defaults):
+            raise Unsupported("non-literal default value")
+        # (literal defaults only matter to callers that omit the argument; the translated function takes every parameter)
         deco = [ast.unparse(d) for d in f.decorator_list]
         if any(d != "functools.cache" and not d.startswith("numba_guard.njit(") for d in deco):
             raise Unsupported("decorator %s" % deco)
@@ -1044,6 +1081,14 @@ TARGETS = {
                             {"arguments": ("record", "ll_args", {"window_size": "int", "num_clusters": "int"}, "la_", "ll_args"),
                              "clusters": ("list", "CL"), "point_labels": ("list", "int")}, "lm_", "(ll_model CL)"),
                            ("_compute_log_likelihood_by_cluster", "return"): ("list", ("list", "F"))}),
+    "graphical_lasso": ("graphical_lasso.py", ["_zero_small_elements", "_reconstruct_optimized_matrix"],
+                        {("_zero_small_elements", "array"): "arr2", ("_zero_small_elements", "epsilon"): "F",
+                         ("_zero_small_elements", "return"): "arr2",
+                         ("_reconstruct_optimized_matrix", "model"):
+                         ("record", "gl_model", {"arguments": ("record", "gl_args", {"min_meaningful_covariance": "F"}, "ga_", "(gl_args F)")},
+                          "gm_", "(gl_model F)"),
+                         ("_reconstruct_optimized_matrix", "compressed_result"): ("list", "F"),
+                         ("_reconstruct_optimized_matrix", "return"): "arr2"}),
     "cluster_maintenance": ("cluster_maintenance.py", ["_find_point_donor", "_move_random_points"],
                             {("_find_point_donor", "model"): ("record", "rp_model",
                              {"arguments": ("record", "rp_args", {"min_cluster_size": "int"}, "ra_", "rp_args"),
@@ -1102,6 +1147,10 @@ KERNEL_MODULES = {
                  "  (* likelihood.point_log_likelihood(point, cluster, window_size, num_data_series): uninterpreted *)\n"
                  "  Variable point_log_likelihood : list F -> CL -> Z -> Q -> F.\n"),
         "externs": {"likelihood.point_log_likelihood": ([("list", "F"), "CL", "int", "float"], "F", "point_log_likelihood", False)}},
+    "graphical_lasso": {
+        "imports": "",
+        "vars": "  Variable reinflate_matrix : list F -> arr2 F.   (* matrix_compression.reinflate_matrix (modelled in Model/TriIndex.v) *)\n",
+        "externs": {"matrix_compression.reinflate_matrix": ([("list", "F")], "arr2", "reinflate_matrix", False)}},
     "cluster_maintenance": {
         "imports": "",
         "vars": "  Variable random_sample_range : Z -> Z -> list Z.   (* random.sample(range(n), k): the draw (uninterpreted) *)\n",
@@ -1177,7 +1226,7 @@ def translate_module(mod, src_root):
             fn = Fn(mod, node, sigs, overrides, km["externs"])
             text = fn.translate()
             at = [ann_type(a.annotation, overrides, (name, a.arg)) for a in node.args.args]
-            sigs[name] = (at, fn.ret)
+            sigs[name] = (at, fn.ret, [a.arg for a in node.args.args])
             body = [b for b in node.body if not (isinstance(b, ast.Expr) and isinstance(getattr(b, "value", None), ast.Constant)
                                                   and isinstance(b.value.value, str))]
             h = hashlib.sha256("".join(ast.dump(b) for b in body).encode()).hexdigest()[:12]
